@@ -4,6 +4,7 @@ import (
 	"bytes"
 	"fmt"
 	"runtime"
+	"sort"
 	"strconv"
 	"strings"
 	"sync"
@@ -313,6 +314,172 @@ func freeRun(r *Rng, n, nkeys int) (string, string) {
 	return "", ""
 }
 
+// freeWalk: unguided but CONTROLLED search — the failing-input search when the Model no longer matches the code.  Goroutines are
+// parked at every yield point (one runs at a time, chosen at random; new callers arrive at random moments; a third of the parse
+// functions fail).  Oracle = the Spec on the real execution: no two parses of one key at the same time, every caller returns,
+// every caller gets the result (or the error) of a parse of its own key that ran.
+func freeWalk(r *Rng, n, nkeys int) (string, string, string) {
+	c := &sfCtl{tidOf: map[int]int{}, arrive: make(chan sfArrival, 4*n), finish: make(chan int, n)}
+	c.grant = make([]chan struct{}, n)
+	f := c.yield
+	mjml.VerifYield.Store(&f)
+	defer mjml.VerifYield.Store(nil)
+	keys := make([]int, n)
+	fails := make([]bool, n)
+	nodes := make([]*parser.MJMLNode, n)
+	results := make([]*parser.MJMLNode, n)
+	rerrs := make([]error, n)
+	errs := make([]error, n)
+	ran := make([]bool, n)
+	for t := 0; t < n; t++ {
+		c.grant[t] = make(chan struct{}, 1)
+		keys[t] = r.Intn(nkeys)
+		fails[t] = r.Bool(1, 2)
+		nodes[t] = &parser.MJMLNode{Text: fmt.Sprint("node-of-", t)}
+		errs[t] = fmt.Errorf("parse error of caller %d", t)
+	}
+	var omu sync.Mutex
+	inside := map[int]int{}
+	overlapAt := ""
+	launch := func(t int) {
+		ready := make(chan struct{})
+		go func() {
+			c.mu.Lock()
+			c.tidOf[goid()] = t
+			c.mu.Unlock()
+			close(ready)
+			res, rerr := mjml.VerifSingleflightDo(uint64(3000+keys[t]), func() (*mjml.MJMLNode, error) {
+				omu.Lock()
+				inside[keys[t]]++
+				ran[t] = true
+				if inside[keys[t]] > 1 && overlapAt == "" {
+					overlapAt = fmt.Sprintf("caller %d starts to parse key %d while another parse of it is running", t, keys[t])
+				}
+				omu.Unlock()
+				c.yield("parsing")
+				omu.Lock()
+				inside[keys[t]]--
+				omu.Unlock()
+				if fails[t] {
+					return nil, errs[t]
+				}
+				return nodes[t], nil
+			})
+			results[t], rerrs[t] = res, rerr
+			c.finish <- t
+		}()
+		<-ready
+	}
+	parked := map[int]string{}
+	started, finished := 0, 0
+	trace := ""
+	wait := func(d time.Duration) {
+		deadline := time.After(d)
+		for {
+			select {
+			case a := <-c.arrive:
+				parked[a.tid] = a.point
+				return
+			case <-c.finish:
+				finished++
+				return
+			case <-deadline:
+				return
+			}
+		}
+	}
+	for steps := 0; steps < 40*n && finished < n; steps++ {
+		// everything that has arrived meanwhile
+		for drained := false; !drained; {
+			select {
+			case a := <-c.arrive:
+				parked[a.tid] = a.point
+			case <-c.finish:
+				finished++
+			default:
+				drained = true
+			}
+		}
+		var cands []int
+		for t := range parked {
+			cands = append(cands, t)
+		}
+		sort.Ints(cands)
+		if started < n {
+			cands = append(cands, -1) // a new caller arrives
+		}
+		if len(cands) == 0 {
+			wait(20 * time.Millisecond) // everybody is blocked inside the implementation or on the way to a yield point
+			if len(parked) == 0 && finished < started {
+				wait(200 * time.Millisecond)
+				if len(parked) == 0 && finished < started {
+					break
+				}
+			}
+			continue
+		}
+		t := cands[r.Intn(len(cands))]
+		if t == -1 {
+			t = started
+			started++
+			trace += fmt.Sprintf("+%d ", t)
+			launch(t)
+		} else {
+			trace += fmt.Sprintf("%d@%s ", t, parked[t])
+			delete(parked, t)
+			c.grant[t] <- struct{}{}
+		}
+		wait(3 * time.Millisecond)
+	}
+	// let everything run out
+	go func() {
+		for {
+			select {
+			case a := <-c.arrive:
+				select {
+				case c.grant[a.tid] <- struct{}{}:
+				default:
+				}
+			case <-time.After(300 * time.Millisecond):
+				return
+			}
+		}
+	}()
+	for t := range parked {
+		select {
+		case c.grant[t] <- struct{}{}:
+		default:
+		}
+	}
+	deadline := time.After(3 * time.Second)
+	for finished < started {
+		select {
+		case <-c.finish:
+			finished++
+		case <-deadline:
+			return trace, "blocked-forever", fmt.Sprintf("%d of %d callers never returned", started-finished, started)
+		}
+	}
+	omu.Lock()
+	ov := overlapAt
+	omu.Unlock()
+	if ov != "" {
+		return trace, "overlapping-parses", ov
+	}
+	for t := 0; t < started; t++ {
+		ok := false
+		for u := 0; u < started; u++ {
+			if keys[u] == keys[t] && ran[u] && ((results[t] == nodes[u] && rerrs[t] == nil && !fails[u]) || (results[t] == nil && rerrs[t] == errs[u] && fails[u])) {
+				ok = true
+			}
+		}
+		if !ok {
+			return trace, "handover-wrong-result", fmt.Sprintf("caller %d (key %d) got %v / %v: not the outcome of any parse of its key", t, keys[t], results[t], rerrs[t])
+		}
+	}
+	return trace, "", ""
+}
+
 // fullPathStress: concurrent Render(WithCache) of equal and different templates, with expiry shifts, stop/restart, under the
 // race detector when built with -race; every result must equal the solo result; cleanup goroutines must not leak.
 func fullPathStress(res *Result, r *Rng, rounds int) {
@@ -457,6 +624,18 @@ func runC15(res *Result, tier string, seed int64, replay string) {
 		res.Case(fmt.Sprintf("free/%d", i), true)
 		if sig != "" {
 			res.Violate(Violation{Sig: sig, Kind: "schedule", What: what + " (unguided run)", Input: map[string]interface{}{"seed": seed, "index": i}})
+			break
+		}
+	}
+	// (1c) controlled unguided walks over the yield points (no Model): the search for a failing schedule
+	nWalk := nFree + nFree/4
+	for i := 0; i < nWalk; i++ {
+		r := NewRng(seed, fmt.Sprintf("c15/walk/%d", i))
+		trace, sig, what := freeWalk(r, 3+i%3, 1+(i%4)/3)
+		res.Case("walk|"+trace, strings.Contains(trace, "@waiting") || strings.Contains(trace, "@parsing"))
+		res.Count("controlled-walks")
+		if sig != "" {
+			res.Violate(Violation{Sig: sig, Kind: "schedule", What: what + " (controlled walk)", Input: map[string]interface{}{"seed": seed, "index": i, "trace": trace}})
 			break
 		}
 	}
